@@ -13,7 +13,7 @@ import os
 
 from hypothesis import strategies as st
 
-from ..core import fmt_exc, innermost_pkg_frame, run_given, short
+from ..core import fmt_exc, innermost_pkg_frame, run_given, with_spellings, short
 from ..gen import parsers as P
 from ..gen import types as G
 from . import _rt
@@ -326,7 +326,7 @@ def run_shard(spec, ctx):
     from . import _kinds
 
     main = case_strategy(spec["depth"])
-    strategy = st.integers(0, 4).flatmap(lambda i: _kinds.case_strategy() if i == 0 else main)
+    strategy = with_spellings(st.integers(0, 4).flatmap(lambda i: _kinds.case_strategy() if i == 0 else main))
     if spec.get("kind") == "atheris":
         from ..core import run_atheris
 
